@@ -187,6 +187,8 @@ package chain
 //@   loop 1 invariant senderDebit(sctx, len(sctx.transfers)) <= txn.Value + txn.Fee
 //@   loop 1 invariant forall i in 0..len(sctx.transfers) :: sctx.transfers[i].ClientID == txn.ClientID || sctx.transfers[i].ClientID == txn.ToClientID
 //@   loop 1 invariant $bal[acct(txn.ClientID)] >= old($blockBal[acct(txn.ClientID)]) - senderDebit(sctx, $idx + 1)
+// (applying the plain transfers does not touch the signed ones, which were validated just before)
+//@   loop 1 invariant forall i in 0..len(sctx.signedTransfers) :: signedOK(sctx.signedTransfers[i])
 //@   at-call GetSignedTransfers assert[sender-loses-at-most-value-plus-fee] $bal[acct(txn.ClientID)] >= old($blockBal[acct(txn.ClientID)]) - (txn.Value + txn.Fee)
 //@   loop 3 header "for _, signedTransfer := range sctx.GetSignedTransfers()"
 //@   loop 3 invariant forall k string :: $nonce[k] == old($blockNonce[k]) && $blockNonce[k] == old($blockNonce[k]) && $blockBal[k] == old($blockBal[k])
